@@ -134,6 +134,12 @@ def _container(E, cfg):
                 E.canary("update-last-field-without-offset", [("p", ns[-1]), ("i", dims[-1])], lambda p, i: E.eq(E.at(new.fields[-1].values, p, i), E.at(old[-1], p, i) + E.at(dx, dims[-1] * p + i)))
             if opname == "__add__" and form == "flat" and nf == 1:
                 E.canary("update-shifted", [("p", ns[0]), ("i", dims[0])], lambda p, i: E.eq(E.at(new.fields[0].values, p, i), E.at(old[0], p, i) + E.at(dx, dims[0] * p + i) + 1))
+    # container creation by `&`: fields keep their order (consecutive layout)
+    if nf > 1:
+        with E.run(FC, FB):
+            c2 = fs[0] & fs[1]
+            c3 = c2 & (fs[2] if nf > 2 else None)
+        E.check("and/order", c2.fields == [fs[0], fs[1]] and c3.fields == list(fs[:3]) and all(X.same_size(a, b) for a, b in zip(list(c3.offsets), off[1:])), "field & field & ... lists the fields in order")
     # link
     for j in range(nf):
         fs[j].values = old[j].copy()
@@ -156,6 +162,8 @@ def container(vk, cfg):
         vk.real(getattr(felupe.FieldContainer, n))
     vk.real(felupe.Field.__iadd__)
     vk.real(felupe.Field.__isub__)
+    vk.real(felupe.Field.__and__)
+    vk.real(felupe.FieldContainer.__and__)
     X.paired(vk, _container, cfg)
 
 
@@ -386,10 +394,14 @@ def dof01(vk, cfg):
 
 # ------------------------------------------------------------------------------------------------
 def _locate(E, off, tot, v, per_field):
-    """spec helper: per_field(j, local index) of the field whose index range contains v"""
-    nf = len(off)
-    ends = off[1:] + [tot]
-    return E.Or(*[E.And(v >= E.val(off[j]), v < E.val(ends[j]), per_field(j, v - E.val(off[j]))) for j in range(nf)])
+    """spec helper: per_field(j, local index) of the field whose index range contains v (0 <= v < tot)"""
+
+    def chain(j):
+        if j == 0:
+            return per_field(0, v)
+        return E.If(v >= E.val(off[j]), lambda: per_field(j, v - E.val(off[j])), lambda: chain(j - 1))
+
+    return chain(len(off) - 1)
 
 
 def _partition(E, cfg):
@@ -408,8 +420,9 @@ def _partition(E, cfg):
 
     in0 = lambda v: _locate(E, off, tot, v, prescribed)  # noqa: E731
     inrange = lambda v: E.And(v >= 0, v < E.val(tot))  # noqa: E731
-    E.forall("dof0/member-iff", [("v", None)], lambda v: E.Iff(E.occurs(dof0, v), E.And(inrange(v), in0(v))))
-    E.forall("dof1/member-iff", [("v", None)], lambda v: E.Iff(E.occurs(dof1, v), E.And(inrange(v), E.Not(in0(v)))))
+    E.forall("dof0/member-iff", [("v", tot)], lambda v: E.Iff(E.occurs(dof0, v), in0(v)))
+    E.forall("dof1/member-iff", [("v", tot)], lambda v: E.Iff(E.occurs(dof1, v), E.Not(in0(v))))
+    E.forall("in-range", [("v", None)], lambda v: E.Implies(E.Or(E.occurs(dof0, v), E.occurs(dof1, v)), inrange(v)))
     E.forall("disjoint", [("v", None)], lambda v: E.Not(E.And(E.occurs(dof0, v), E.occurs(dof1, v))))
     E.forall("covering", [("v", tot)], lambda v: E.Or(E.occurs(dof0, v), E.occurs(dof1, v)))
     _increasing(E, "dof0/increasing", dof0)
@@ -485,16 +498,21 @@ def _apply(E, cfg):
 
     def expected(v):
         """value of the last boundary containing v, else the current field value"""
-        ends = off[1:] + [tot]
-        r = None
-        for j in range(nf):
+
+        def in_field(j):
             loc = v - E.val(off[j])
-            rj = u0(j, loc)
+            r = lambda: u0(j, loc)  # noqa: E731
             for name, b in bounds.items():
                 if b.field is fs[j]:
-                    rj = E.If(E.occurs(b.dof, loc), valfun[name](loc), rj)
-            r = rj if r is None else E.If(v >= E.val(off[j]), rj, r)
-        return r
+                    r = (lambda b, name, prev: lambda: E.If(E.occurs(b.dof, loc), lambda: valfun[name](loc), prev))(b, name, r)
+            return r()
+
+        def chain(j):
+            if j == 0:
+                return in_field(0)
+            return E.If(v >= E.val(off[j]), lambda: in_field(j), lambda: chain(j - 1))
+
+        return chain(nf - 1)
 
     with E.run(DT):
         full = DT.apply(cont, bounds)
@@ -537,3 +555,360 @@ def apply(vk, cfg):
     else the current field value; scalar, per-dof array and broadcast values; mixed containers"""
     vk.real(DT.apply)
     X.paired(vk, _apply, cfg)
+
+
+# ------------------------------------------------------------------------------------------------
+# load cases: documented planes and components, for arbitrary meshes and symbolic face positions / moves
+def _lc_setup(E, mdim, extra=()):
+    dims = (mdim,) + tuple(extra)
+    nf = len(dims)
+    meshes, fs = _fields(E, dims, points=True, pwc=True, mdims=[mdim] * nf, values="sym")
+    cont = F.container(E, fs)
+    return meshes, fs, cont
+
+
+def _lc_check(E, tag, res, expected, meshes, fs, cont):
+    """expected: ordered list of (label, plane predicate p -> bool, set of components, value)"""
+    bounds, loadcase = res
+    m, f = meshes[0], fs[0]
+    n, d = m.npoints, f.dim
+    labels = [e[0] for e in expected]
+    E.check(f"{tag}/labels", list(bounds.keys()) == labels, f"boundaries {list(bounds.keys())} == documented {labels}")
+    if list(bounds.keys()) != labels:
+        return
+    for label, plane, comps, value in expected:
+        b = bounds[label]
+        E.forall(f"{tag}/{label}/dofs", [("p", n), ("i", d)], (lambda b, plane, comps: lambda p, i: E.Iff(E.occurs(b.dof, d * p + i), E.And(plane(p), E.Or(*[E.eq(i, c) for c in comps]))))(b, plane, comps))
+        E.forall(f"{tag}/{label}/value", [], (lambda b, value: lambda: E.eq(E.val(b.value), E.val(value)))(b, value))
+        E.check(f"{tag}/{label}/field", b.field is f, "boundary on the first field")
+    off, tot = F.spec_offsets(fs)
+    dof0, dof1, ext0 = loadcase["dof0"], loadcase["dof1"], loadcase["ext0"]
+
+    def constrained(x):  # local dof of the first field
+        p, i = E.div(x, d), E.mod(x, d)
+        return E.Or(*[E.And(plane(p), E.Or(*[E.eq(i, c) for c in comps])) for _, plane, comps, _ in expected])
+
+    def in0(j, x):
+        free = E.occurs(meshes[j].points_without_cells, E.div(x, fs[j].dim))
+        return E.Or(constrained(x), free) if j == 0 else free
+
+    E.forall(f"{tag}/dof0", [("v", tot)], lambda v: E.Iff(E.occurs(dof0, v), _locate(E, off, tot, v, in0)))
+    E.forall(f"{tag}/dof1", [("v", tot)], lambda v: E.Iff(E.occurs(dof1, v), E.Not(_locate(E, off, tot, v, in0))))
+    E.forall(f"{tag}/dof-in-range", [("v", None)], lambda v: E.Implies(E.Or(E.occurs(dof0, v), E.occurs(dof1, v)), E.And(v >= 0, v < E.val(tot))))
+
+    def ext(v):
+        def first(x):
+            p, i = E.div(x, d), E.mod(x, d)
+            r = lambda: E.at(f.values, p, i)  # noqa: E731
+            for _, plane, comps, value in expected:
+                r = (lambda plane, comps, value, prev: lambda: E.If(E.And(plane(p), E.Or(*[E.eq(i, c) for c in comps])), lambda: E.val(value), prev))(plane, comps, value, r)
+            return r()
+
+        def chain(j):
+            if j == 0:
+                return first(v)
+            loc = v - E.val(off[j])
+            return E.If(v >= E.val(off[j]), lambda: E.at(fs[j].values, E.div(loc, fs[j].dim), E.mod(loc, fs[j].dim)), lambda: chain(j - 1))
+
+        return chain(len(fs) - 1)
+
+    E.check(f"{tag}/ext0-length", _shape_is(ext0, (E.length(dof0),)), "one prescribed value per prescribed dof")
+    E.forall(f"{tag}/ext0", [("k", E.length(dof0))], lambda k: E.eq(E.at(ext0, k), ext(E.at(dof0, k))))
+
+
+def _planes(E, m):
+    X_ = m.points
+    n = m.npoints
+    at = lambda a, c: (lambda p: E.eq(E.at(X_, p, a), E.val(c)))  # noqa: E731
+    hi = lambda a: (lambda p: E.all_in(n, lambda q: E.at(X_, q, a) <= E.at(X_, p, a)))  # noqa: E731  outermost right position
+    lo = lambda a: (lambda p: E.all_in(n, lambda q: E.at(X_, q, a) >= E.at(X_, p, a)))  # noqa: E731  outermost left position
+    return at, hi, lo
+
+
+def _sym3(sym):
+    return tuple(sym) if hasattr(sym, "__len__") else (sym, sym, sym)
+
+
+def _symmetry_expected(E, m, d, axes, centers):
+    at, _, _ = _planes(E, m)
+    return [("sym" + "xyz"[a], at(a, centers[a]), {a}, 0.0) for a in range(d) if axes[a]]
+
+
+def _loadcase(E, cfg):
+    mdim, case, extra = cfg["mdim"], cfg["case"], cfg.get("extra", ())
+    d = mdim
+    mods = (DL, DT, DB)
+    others = lambda a: {i for i in range(d) if i != a}  # noqa: E731
+    SYMS = [True, False, (True, False, True), (False, True, False)] if not cfg.get("light") else [True, False, (False, True, True)]
+    if case == "symmetry":
+        for axes in itertools.product((False, True), repeat=3):
+            for given in (False, True):
+                E.scope()
+                meshes, fs, cont = _lc_setup(E, mdim, extra)
+                cs = [E.real(f"center{a}") for a in range(3)] if given else [0.0, 0.0, 0.0]
+                kw = dict(x=cs[0], y=cs[1], z=cs[2]) if given else {}
+                with E.run(*mods):
+                    bounds = DL.symmetry(fs[0], axes=axes, **kw)
+                tag = f"symmetry[axes={''.join(str(int(a)) for a in axes)},{'given' if given else 'default'}-centers]"
+                exp = _symmetry_expected(E, meshes[0], d, axes, cs)
+                n = meshes[0].npoints
+                E.check(f"{tag}/labels", list(bounds.keys()) == [e[0] for e in exp], f"{list(bounds.keys())}")
+                for label, plane, comps, value in exp:
+                    b = bounds[label]
+                    E.forall(f"{tag}/{label}/dofs", [("p", n), ("i", d)], (lambda b, plane, comps: lambda p, i: E.Iff(E.occurs(b.dof, d * p + i), E.And(plane(p), E.Or(*[E.eq(i, c) for c in comps]))))(b, plane, comps))
+                    E.forall(f"{tag}/{label}/value", [], (lambda b: lambda: E.eq(E.val(b.value), 0.0))(b))
+                if axes == (True, True, True) and not given:
+                    b = bounds["symx"]
+                    E.canary("symmetry-fixes-the-in-plane-components", [("p", n), ("i", d)], lambda p, i: E.Iff(E.occurs(b.dof, d * p + i), E.And(E.eq(E.at(meshes[0].points, p, 0), 0.0), E.Not(E.eq(i, 0)))))
+                # extension of a given dict
+                pre = felupe.dof.BoundaryDict() if hasattr(felupe.dof, "BoundaryDict") else {}
+                pre["user"] = _stub_boundary(E, "user", fs[0])
+                with E.run(*mods):
+                    out = DL.symmetry(fs[0], axes=axes, bounds=pre, **kw)
+                E.check(f"{tag}/extends-given-dict", out is pre and list(out.keys()) == ["user"] + [e[0] for e in exp], f"{list(out.keys())}")
+        return
+    if case == "uniaxial":
+        for axis, clamped, sym, lr in itertools.product(range(mdim), (False, True), SYMS, ("default", "given")):
+            E.scope()
+            meshes, fs, cont = _lc_setup(E, mdim, extra)
+            m = meshes[0]
+            at, hi, lo = _planes(E, m)
+            move = E.real("move")
+            kw = {}
+            if lr == "given":
+                kw = dict(left=E.real("left"), right=E.real("right"))
+            with E.run(*mods):
+                res = DL.uniaxial(cont, move=move, axis=axis, clamped=clamped, sym=sym, **kw)
+            s3 = _sym3(sym)
+            left = at(axis, kw["left"]) if kw else lo(axis)
+            right = at(axis, kw["right"]) if kw else hi(axis)
+            exp = _symmetry_expected(E, m, d, s3, [0.0] * 3)
+            if not s3[axis]:
+                exp.append(("left-x", left, {axis}, 0.0))
+            if clamped:
+                exp.append(("right", right, others(axis), 0.0))
+                if not s3[axis]:
+                    exp.append(("left-yz", left, others(axis), 0.0))
+            exp.append(("move", right, {axis}, move))
+            tag = f"uniaxial[axis={axis},clamped={int(clamped)},sym={sym},faces={lr}]".replace(" ", "")
+            _lc_check(E, tag, res, exp, meshes, fs, cont)
+            if axis == mdim - 1 and clamped and sym is False and lr == "default":
+                bm = res[0]["move"]
+                E.canary("uniaxial-move-on-left-face", [("p", m.npoints), ("i", d)], lambda p, i: E.Iff(E.occurs(bm.dof, d * p + i), E.And(left(p), E.eq(i, axis))))
+        return
+    if case == "biaxial":
+        pairs = [(a, b) for a in range(mdim) for b in range(mdim) if a != b]
+        if cfg.get("light"):
+            pairs = [pq for pq in pairs if pq in ((0, 1), (1, 0), (1, 2), (2, 0))]
+        for axes, clampes, sym, lr in itertools.product(pairs, [(False, False), (True, False), (False, True)] + ([(True, True)] if not cfg.get("light") else []), SYMS, ("default", "given", "mixed")):
+            E.scope()
+            meshes, fs, cont = _lc_setup(E, mdim, extra)
+            m = meshes[0]
+            at, hi, lo = _planes(E, m)
+            moves = (E.real("move0"), E.real("move1"))
+            lefts = [None, None] if lr == "default" else [E.real("left0"), None if lr == "mixed" else E.real("left1")]
+            rights = [None, None] if lr == "default" else [None if lr == "mixed" else E.real("right0"), E.real("right1")]
+            with E.run(*mods):
+                res = DL.biaxial(cont, lefts=tuple(lefts), rights=tuple(rights), moves=moves, axes=axes, clampes=clampes, sym=sym)
+            s3 = _sym3(sym)
+            L = [at(ax, lefts[k]) if lefts[k] is not None else lo(ax) for k, ax in enumerate(axes)]
+            R = [at(ax, rights[k]) if rights[k] is not None else hi(ax) for k, ax in enumerate(axes)]
+            exp = _symmetry_expected(E, m, d, s3, [0.0] * 3)
+            for k, ax in enumerate(axes):
+                if not s3[ax]:
+                    exp.append((f"move-left-{ax}", L[k], {ax}, -moves[k] if E.sym else -moves[k]))
+            for k, ax in enumerate(axes):
+                if clampes[k]:
+                    exp.append((f"right-{ax}", R[k], others(ax), 0.0))
+                    if not s3[ax]:
+                        exp.append((f"left-{ax}", L[k], others(ax), 0.0))
+                exp.append((f"move-right-{ax}", R[k], {ax}, moves[k]))
+            tag = f"biaxial[axes={axes},clampes={tuple(int(c) for c in clampes)},sym={sym},faces={lr}]".replace(" ", "")
+            _lc_check(E, tag, res, exp, meshes, fs, cont)
+            if axes == (1, 0) and sym is False and lr == "default" and clampes == (False, False):
+                bm = res[0]["move-left-1"]
+                E.canary("biaxial-default-left-face-from-the-other-column", [("p", m.npoints), ("i", d)], lambda p, i: E.Iff(E.occurs(bm.dof, d * p + i), E.And(E.all_in(m.npoints, lambda q: E.at(m.points, q, 0) >= E.at(m.points, p, 1)), E.all_in(m.npoints, lambda q: E.Not(E.eq(E.at(m.points, q, 0), E.at(m.points, p, 1))) if False else True), E.eq(i, 1))))
+        return
+    # shear
+    pairs = [(a, b) for a in range(mdim) for b in range(mdim) if a != b]
+    for axes, sym, bt in itertools.product(pairs, (True, False), ("default", "given")):
+        E.scope()
+        meshes, fs, cont = _lc_setup(E, mdim, extra)
+        m = meshes[0]
+        at, hi, lo = _planes(E, m)
+        moves = (E.real("shear"), E.real("compression_bottom"), E.real("compression_top"))
+        kw = dict(bottom=E.real("bottom"), top=E.real("top")) if bt == "given" else {}
+        with E.run(*mods):
+            res = DL.shear(cont, moves=moves, axes=axes, sym=sym, **kw)
+        a0, a1 = axes
+        bottom = at(a1, kw["bottom"]) if kw else lo(a1)
+        top = at(a1, kw["top"]) if kw else hi(a1)
+        thick = [t for t in range(d) if t not in axes]
+        exp = _symmetry_expected(E, m, d, [t in thick for t in range(3)], [0.0] * 3) if sym else []
+        exp += [
+            ("bottom", bottom, others(a1), 0.0),
+            ("top", top, set(thick), 0.0),
+            ("compression_bottom", bottom, {a1}, moves[1]),
+            ("compression_top", top, {a1}, moves[2]),
+            ("move", top, {a0}, moves[0]),
+        ]
+        tag = f"shear[axes={axes},sym={int(sym)},faces={bt}]".replace(" ", "")
+        _lc_check(E, tag, res, exp, meshes, fs, cont)
+        if axes == (0, 1) and sym and bt == "default":
+            bm = res[0]["move"]
+            E.canary("shear-applied-on-the-bottom-face", [("p", m.npoints), ("i", d)], lambda p, i: E.Iff(E.occurs(bm.dof, d * p + i), E.And(bottom(p), E.eq(i, a0))))
+
+
+LC = []
+for case in ("symmetry", "uniaxial", "biaxial", "shear"):
+    LC.append(dict(case=case, mdim=3, light=True))
+    LC.append(dict(case=case, mdim=2, light=True))
+    LC.append(dict(case=case, mdim=3, tier="thorough"))
+    LC.append(dict(case=case, mdim=2, tier="thorough"))
+    if case != "symmetry":
+        LC.append(dict(case=case, mdim=3, extra=(1, 1), light=True, tier="thorough"))
+        LC.append(dict(case=case, mdim=2, extra=(1,), light=True))
+
+
+@contract("C08", "loadcase", configs=LC, engine="E3")
+def loadcase(vk, cfg):
+    """symmetry / uniaxial / biaxial / shear: the returned boundaries select exactly the documented planes
+    (given positions or the outermost mesh coordinates) and components, with the documented values; the
+    returned dof0 / dof1 / ext0 are the partition and prescribed values of exactly these constraints"""
+    for fn in (DL.symmetry, DL.uniaxial, DL.biaxial, DL.shear):
+        vk.real(fn)
+    vk.real(felupe.Boundary.__init__)
+    vk.real(DT.partition)
+    vk.real(DT.apply)
+    X.paired(vk, _loadcase, cfg)
+
+
+# ------------------------------------------------------------------------------------------------
+# bounded stand-in (labelled, never counted): the same clauses end to end on real felupe meshes / regions /
+# fields in float arithmetic (np.isclose with its real tolerance, real Mesh.points_without_cells)
+def _grid_meshes():
+    out = []
+    a3, b3 = (0.0, -1.0, 0.5), (2.0, 1.5, 3.5)  # non-uniform, axis-distinct bounds
+    for n in itertools.product((2, 3), repeat=3):
+        out.append(("cube" + "x".join(map(str, n)), felupe.Cube(a=a3, b=b3, n=n), felupe.RegionHexahedron, 3))
+    for n in itertools.product((2, 3), repeat=2):
+        out.append(("rect" + "x".join(map(str, n)), felupe.Rectangle(a=a3[:2], b=b3[:2], n=n), felupe.RegionQuad, 2))
+    # a mesh with a point that belongs to no cell
+    m = felupe.Cube(a=a3, b=b3, n=(2, 3, 2))
+    m2 = felupe.Mesh(np.vstack([m.points, [[2.0, 0.25, 0.5]]]), m.cells, m.cell_type)
+    out.append(("cube2x3x2+free-point", m2, felupe.RegionHexahedron, 3))
+    return out
+
+
+def _doc_sets(mesh, d, entries, free):
+    """dof set / value map of an ordered list of (plane mask over points, components, value)"""
+    val = {}
+    for mask, comps, value in entries:
+        for p in np.nonzero(mask)[0]:
+            for i in comps:
+                val[d * p + i] = value
+    for p in free:
+        for i in range(d):
+            val.setdefault(d * p + i, None)
+    return val
+
+
+@contract("C08", "grid-standin", configs=[dict(part=p) for p in ("boundary", "loadcase")], engine="ground")
+def grid_standin(vk, cfg):
+    """BOUNDED: all argument combinations of Boundary / the load cases on all grids up to 3x3x3 points"""
+    if not vk.sym:
+        return
+    X._real_numpy_everywhere()
+    evals, bad = 0, []
+    for name, mesh, Region, d in _grid_meshes():
+        region = Region(mesh)
+        f = felupe.Field(region, dim=d, values=0.0)
+        cont = felupe.FieldContainer([f])
+        Xp = mesh.points
+        n = mesh.npoints
+        lo, hi = Xp.min(axis=0), Xp.max(axis=0)
+        free = list(mesh.points_without_cells)
+        if cfg["part"] == "boundary":
+            opts = []
+            for a in range(3):
+                o = [("default", None)]
+                if a < d:
+                    o += [("value", hi[a]), ("callable", (lambda a: lambda x: x < 0.5 * (lo[a] + hi[a]))(a))]
+                else:
+                    o += [("value", 0.0)]
+                opts.append(o)
+            for (kx, fx), (ky, fy), (kz, fz) in itertools.product(*opts):
+                for mode in ("or", "and"):
+                    for skip in [None] + list(itertools.product((False, True), repeat=3)):
+                        kw = {k: v for k, v in (("fx", fx), ("fy", fy), ("fz", fz)) if v is not None}
+                        if skip is not None:
+                            kw["skip"] = skip
+                        b = felupe.Boundary(f, mode=mode, **kw)
+                        masks = []
+                        for a, (kind, v) in enumerate(((kx, fx), (ky, fy), (kz, fz))[:d]):
+                            if kind == "value":
+                                masks.append(np.isclose(Xp[:, a], v))
+                            elif kind == "callable":
+                                masks.append(v(Xp[:, a]))
+                        sel = (np.logical_or if mode == "or" else np.logical_and).reduce(masks) if masks else np.full(n, mode == "and")
+                        keep = [i for i in range(d) if skip is None or not skip[i]]
+                        want = sorted(d * p + i for p in np.nonzero(sel)[0] for i in keep)
+                        evals += 1
+                        if list(b.dof) != want or list(b.points) != (sorted(np.nonzero(sel)[0]) if keep else []):
+                            bad.append(f"{name} Boundary({kx},{ky},{kz},{mode},skip={skip})")
+            continue
+        # load cases
+        def check(label, res, entries):
+            nonlocal evals
+            bounds, lc = res
+            val = _doc_sets(mesh, d, entries, free)
+            want0 = sorted(val)
+            want1 = [k for k in range(n * d) if k not in val]
+            ext = [0.0 if val[k] is None else val[k] for k in want0]
+            evals += 1
+            if list(lc["dof0"]) != want0 or list(lc["dof1"]) != want1 or not np.allclose(lc["ext0"], ext):
+                bad.append(f"{name} {label}")
+
+        P = lambda a, v: np.isclose(Xp[:, a], v)  # noqa: E731
+        oth = lambda a: [i for i in range(d) if i != a]  # noqa: E731
+        syms = [True, False] + [s for s in itertools.product((False, True), repeat=3)]
+        symE = lambda s3: [(P(a, 0.0), [a], 0.0) for a in range(d) if s3[a]]  # noqa: E731
+        for axis, clamped, sym, given in itertools.product(range(d), (False, True), syms, (False, True)):
+            kw = dict(left=lo[axis] + 0.0, right=hi[axis] + 0.0) if given else {}
+            res = felupe.dof.uniaxial(cont, move=0.3, axis=axis, clamped=clamped, sym=sym, **kw)
+            s3 = _sym3(sym)
+            e = symE(s3)
+            if not s3[axis]:
+                e.append((P(axis, lo[axis]), [axis], 0.0))
+            if clamped:
+                e.append((P(axis, hi[axis]), oth(axis), 0.0))
+                if not s3[axis]:
+                    e.append((P(axis, lo[axis]), oth(axis), 0.0))
+            e.append((P(axis, hi[axis]), [axis], 0.3))
+            check(f"uniaxial(axis={axis},clamped={clamped},sym={sym},given={given})", res, e)
+        for axes, clampes, sym in itertools.product([(a, b) for a in range(d) for b in range(d) if a != b], itertools.product((False, True), repeat=2), syms):
+            res = felupe.dof.biaxial(cont, moves=(0.3, -0.2), axes=axes, clampes=clampes, sym=sym)
+            s3 = _sym3(sym)
+            e = symE(s3)
+            mv = (0.3, -0.2)
+            for k, ax in enumerate(axes):
+                if not s3[ax]:
+                    e.append((P(ax, lo[ax]), [ax], -mv[k]))
+            for k, ax in enumerate(axes):
+                if clampes[k]:
+                    e.append((P(ax, hi[ax]), oth(ax), 0.0))
+                    if not s3[ax]:
+                        e.append((P(ax, lo[ax]), oth(ax), 0.0))
+                e.append((P(ax, hi[ax]), [ax], mv[k]))
+            check(f"biaxial(axes={axes},clampes={clampes},sym={sym})", res, e)
+        for axes, sym in itertools.product([(a, b) for a in range(d) for b in range(d) if a != b], (True, False)):
+            res = felupe.dof.shear(cont, moves=(0.3, -0.1, 0.2), axes=axes, sym=sym)
+            a0, a1 = axes
+            thick = [t for t in range(d) if t not in axes]
+            e = [(P(t, 0.0), [t], 0.0) for t in thick] if sym else []
+            e += [(P(a1, lo[a1]), oth(a1), 0.0), (P(a1, hi[a1]), thick, 0.0), (P(a1, lo[a1]), [a1], -0.1), (P(a1, hi[a1]), [a1], 0.2), (P(a1, hi[a1]), [a0], 0.3)]
+            check(f"shear(axes={axes},sym={sym})", res, e)
+    vk.bounded_standin(f"{cfg['part']} on real grids", "all grids with 2..3 points per axis in 2d and 3d (non-uniform, axis-distinct bounds) + one mesh with a point without cells; all fx/fy/fz kinds x and/or x skip tuples, all load-case flag combinations", evals, not bad, "; ".join(bad[:6]))
+    vk.note("grid-standin is a bounded stand-in (exhaustive small scope, float arithmetic): reported separately, not counted")
+    if bad:  # a concrete counterexample is a refutation (only then an obligation is recorded)
+        vk.ensures_true("counterexample-on-a-real-grid", False, "; ".join(bad[:6]), backend="bounded", replay={"confirmed": True, "kind": "ground", "point": {"cases": bad[:6]}, "expected": "documented planes / components", "actual": "real code differs (native float)"})
